@@ -503,10 +503,11 @@ class WMom(E):
                            "calcerr": ce, "sdev": True, "family": "undefined:zero-weight-column"})
                 cs.append({"x": [[3.0, 1.0], [4.5, 2.0], [6.0, 4.0]], "w": [0.0, 0.0, 0.0], "im": None,
                            "calcerr": ce, "sdev": False, "family": "undefined:all-zero-weights"})
-            nbig = 2 ** 16 + 3          # more than 2^16 elements: blocked / pairwise reductions with a remainder
-            fx, fw = [nbig, 7919, 13, 101, 50], [nbig, 31, 5, 8, 0]
-            cs.append({"x": mod_list(*fx), "w": mod_list(*fw), "formula": {"x": fx, "w": fw}, "im": None, "calcerr": True, "sdev": True,
-                       "ct": {"x": r.choice(["f8", "i4", "f4"]), "w": "f8"}, "family": "large(>2^16)"})
+            if not ctx.quick():      # exact evaluation of 2^16 elements costs ~1 min of coqc each: thorough tier only
+                nbig = 2 ** 16 + 3          # more than 2^16 elements: blocked / pairwise reductions with a remainder
+                fx, fw = [nbig, 7919, 13, 101, 50], [nbig, 31, 5, 8, 0]
+                cs.append({"x": mod_list(*fx), "w": mod_list(*fw), "formula": {"x": fx, "w": fw}, "im": None, "calcerr": True, "sdev": True,
+                           "ct": {"x": r.choice(["f8", "i4", "f4"]), "w": "f8"}, "family": "large(>2^16)"})
             cs.append({"x": 5.0, "w": 2.0, "im": None, "calcerr": True, "sdev": True, "ct": {"x": "scalar", "w": "scalar"},
                        "family": "scalar-input"})
             cs.append({"x": 5.0, "w": 2.0, "im": 4.5, "calcerr": True, "sdev": True, "ct": {"x": "0d", "w": "0d"},
@@ -845,10 +846,11 @@ class InterpLin(E):
             cs.append({"v": [1.0, 3.0, 2.0], "x": [0.0, 1.0, 2.0], "u": [], "family": "no-queries"})
             cs.append({"v": [1.0, 3.0, 2.0], "x": [0.0, 1.0, 2.0], "u": 0.5, "ct": {"u": "scalar"}, "family": "scalar-query"})
             cs.append({"v": [1.0, 3.0, 2.0], "x": [-1.0, 0.0, 2.0], "u": [0.0, -0.0, -1.0, 2.0], "family": "zero-node"})
-            nbig = 2 ** 16 + 1
-            fx, fv = [nbig, 3, 0, 10 ** 9, 1000], [nbig, 7919, 3, 19, 9]
-            cs.append({"v": mod_list(*fv), "x": mod_list(*fx), "formula": {"x": fx, "v": fv},
-                       "u": [-2000.5, -1000.0, 0.0, 1.5, 98301.25, 3.0 * (nbig - 1) - 1000.0, 3.0e5], "family": "large(>2^16)"})
+            if not ctx.quick():      # exact evaluation of 2^16 elements costs ~1 min of coqc each: thorough tier only
+                nbig = 2 ** 16 + 1
+                fx, fv = [nbig, 3, 0, 10 ** 9, 1000], [nbig, 7919, 3, 19, 9]
+                cs.append({"v": mod_list(*fv), "x": mod_list(*fx), "formula": {"x": fx, "v": fv},
+                           "u": [-2000.5, -1000.0, 0.0, 1.5, 98301.25, 3.0 * (nbig - 1) - 1000.0, 3.0e5], "family": "large(>2^16)"})
         return cs
 
     def impl(self, c):
@@ -904,9 +906,10 @@ class GetStats(E):
         if round == 0:
             cs.append({"x": [[1.0, 2.0], [3.0, 5.0]], "w": None, "nsig": 3.0, "niter": None, "family": "rejected-2d-clip"})
             cs.append({"x": 5.0, "w": None, "nsig": None, "niter": None, "ct": {"x": "scalar"}, "family": "scalar-input"})
-            fx = [2 ** 16 + 5, 7919, 13, 101, 50]
-            cs.append({"x": mod_list(*fx), "formula": {"x": fx}, "w": None, "nsig": None, "niter": None,
-                       "ct": {"x": r.choice(["f8", "i8"])}, "family": "large(>2^16)"})
+            if not ctx.quick():      # exact evaluation of 2^16 elements costs ~1 min of coqc each: thorough tier only
+                fx = [2 ** 16 + 5, 7919, 13, 101, 50]
+                cs.append({"x": mod_list(*fx), "formula": {"x": fx}, "w": None, "nsig": None, "niter": None,
+                           "ct": {"x": r.choice(["f8", "i8"])}, "family": "large(>2^16)"})
             # statistics that do not exist
             cs.append({"x": [1.0, 2.0, 3.0], "w": [0.0, 0.0, 0.0], "nsig": None, "niter": None, "family": "undefined:all-zero-weights"})
             cs.append({"x": [1.0, 2.0, 3.0], "w": [0.0, 0.0, 0.0], "nsig": None, "niter": None, "calcerr": False,
